@@ -49,6 +49,31 @@ def withGrid (g : Res GridSpec) (f : GridSpec → String) : String :=
   | .ok g => f g
   | .error e => e.toStr
 
+
+/-- one step of a query history sharing (`B`, `P`) or not using (`b`, `p`) one `geobox_cache` -/
+def histGo (fl : Rnd) (g : GridSpec) : List String → Cache → List String → Option (List String × Cache)
+  | [], c, acc => some (acc.reverse, c)
+  | "B" :: l :: b :: r :: t :: rest, c, acc => do
+    let q ← parseBBox? l b r t
+    let res := g.tilesC fl tol8 q c
+    histGo fl g rest res.2 (fmtList fmtIdx (res.1.map (·.1)) :: acc)
+  | "b" :: l :: b :: r :: t :: rest, c, acc => do
+    let q ← parseBBox? l b r t
+    histGo fl g rest c (fmtList fmtIdx (g.tiles fl tol8 q) :: acc)
+  | "P" :: pts :: rest, c, acc => do
+    let ps ← parseList? parsePt? pts
+    let q ← ptsBounds ps
+    let res := g.tilesFromPolygonC fl tol8 q (fun gb => Spec.Convex.disjoint ps (gb.extentPts fl)) c
+    histGo fl g rest res.2 (fmtList fmtIdx (res.1.map (·.1)) :: acc)
+  | "p" :: pts :: rest, c, acc => do
+    let ps ← parseList? parsePt? pts
+    let q ← ptsBounds ps
+    histGo fl g rest c
+      (fmtList fmtIdx (g.tilesFromPolygon fl tol8 q (fun gb => Spec.Convex.disjoint ps (gb.extentPts fl))) :: acc)
+  | _, _, _ => none
+
+def keyLe (a b : Int × Int) : Bool := a.2 < b.2 || (a.2 == b.2 && a.1 ≤ b.1)
+
 def run (args : List String) : Option String :=
   match args with
   -- spec validation of the binary64 rounding
@@ -123,6 +148,15 @@ def run (args : List String) : Option String :=
       let q := (g.tileGeobox fl (jx, jy)).bbox fl
       fmtRes (fun g2 => fmtBBox ((g2.tileGeobox fl (kx, ky)).bbox fl))
         (GridSpec.fromSampleTile fl q ny' nx' jx jy fx' fy'))
+  -- multi-step history over one shared geobox_cache; output: result of every step, then the cache keys
+  | "hist" :: m :: ny :: nx :: rx :: ry :: ox :: oy :: fx :: fy :: steps => do
+    let fl ← parseMode? m
+    let g ← parseGrid? fl ny nx rx ry ox oy fx fy
+    match g with
+    | .error e => pure e.toStr
+    | .ok g => do
+      let (outs, c) ← histGo fl g steps [] []
+      pure (" ".intercalate outs ++ " cache=" ++ fmtList fmtIdx ((c.map (·.1)).mergeSort keyLe))
   | ["web", m, P, z, npix, px, py, kx, ky] => do
     let fl ← parseMode? m
     let P ← parseRat? P; let z ← parseInt? z; let npix ← parseInt? npix
